@@ -9,6 +9,7 @@ package intern
 //  (3) a seeded stress run of concurrent Intern calls (schedule sampling, not exhaustive).
 
 import (
+	"encoding/json"
 	"fmt"
 	"os"
 	"sync"
@@ -119,5 +120,11 @@ func TestVerifC38Bounded(t *testing.T) {
 			}
 		}
 	}
-	fmt.Printf("BOUNDED: {\"evaluations\":%d,\"distinct\":%d,\"rule\":\"(1) all 256 byte values of both char6 tables (complete); (2) every string of length <=2 over all 256 bytes and length 3..%d over a 10-byte corner alphabet (alphabet, '.', '-', NUL, bytes >=0x80) through Intern/Value/Query on one Table; (3) %d rounds of 8 goroutines interning the same new string (schedule sampling)\",\"exhaustive\":true,\"bound\":\"len<=2 over 256 bytes, len<=%d over 10 bytes\",\"samples\":[%q,%q,%q]}\n", evals, len(strs), maxLen, rounds, maxLen, strs[5], strs[70000], strs[len(strs)-9])
+	fmt.Printf("BOUNDED: {\"evaluations\":%d,\"distinct\":%d,\"rule\":\"(1) all 256 byte values of both char6 tables (complete); (2) every string of length <=2 over all 256 bytes and length 3..%d over a 10-byte corner alphabet (alphabet, '.', '-', NUL, bytes >=0x80) through Intern/Value/Query on one Table; (3) %d rounds of 8 goroutines interning the same new string (schedule sampling)\",\"exhaustive\":true,\"bound\":\"len<=2 over 256 bytes, len<=%d over 10 bytes\",\"samples\":[%s,%s,%s]}\n", evals, len(strs), maxLen, rounds, maxLen, c38json(strs[5]), c38json(strs[70000]), c38json(strs[len(strs)-9]))
+}
+
+// c38json renders a sample as a JSON string (Go's %q escapes such as \x00 are not JSON).
+func c38json(s string) string {
+	b, _ := json.Marshal(fmt.Sprintf("%q", s))
+	return string(b)
 }
